@@ -129,7 +129,7 @@ class BatchOracle:
     u_t ~ N(0, diag(su)), w_t ~ N(0, diag(sw)).  eps = (xi_0 - mu0, u_1..u_T, w_1..w_T).
     """
 
-    def __init__(self, T, P, K, Z, H, D, su, sw, nper):
+    def __init__(self, T, P, K, Z, H, D, su, sw, nper, unit_roots=0):
         import scipy.linalg as sla
         T, P, K, Z, H, D = (np.array(x, dtype=float) for x in (T, P, K, Z, H, D))
         self.n, self.nu, self.nw, self.ny, self.nper = T.shape[0], P.shape[1], H.shape[1], Z.shape[0], nper
@@ -137,8 +137,31 @@ class BatchOracle:
         su, sw = np.asarray(su, dtype=float), np.asarray(sw, dtype=float)
         Su = np.diag(su ** 2) if nu else np.zeros((0, 0))
         Sw = np.diag(sw ** 2) if nw else np.zeros((0, 0))
-        self.mu0 = np.linalg.solve(np.eye(n) - T, K)
-        self.S0 = sla.solve_discrete_lyapunov(T, P @ Su @ P.T)
+        if not unit_roots:
+            self.mu0 = np.linalg.solve(np.eye(n) - T, K)
+            self.S0 = sla.solve_discrete_lyapunov(T, P @ Su @ P.T)
+            self.E = np.zeros((n, 0))
+        else:
+            # xi_0 = E delta + U2 a:  E spans the T-invariant subspace of the unit eigenvalue, delta is a FIXED UNKNOWN; the
+            # complementary coordinates a = U2' xi (U2 = orthonormal complement of E: the stable block of the triangular state,
+            # autonomous because U2' T = (U2' T U2) U2') start from their own unconditional distribution, uncorrelated with delta.
+            # Computed here from the null space of T - I (SVD), not from irispie's Schur form.
+            Uf, sv, Vt = np.linalg.svd(T - np.eye(n))
+            if int((sv < 1e-9).sum()) != unit_roots:
+                raise ValueError(f"BatchOracle: expected {unit_roots} unit roots, singular values of T-I {sv}")
+            E = Vt[n - unit_roots:, :].T                   # right null space: T E = E
+            Q, _ = np.linalg.qr(np.hstack([E, np.eye(n)]))
+            U2 = Q[:, unit_roots:n]
+            if np.abs(U2.T @ E).max() > 1e-9 or np.abs(U2.T @ T @ E).max() > 1e-9:
+                raise ValueError("BatchOracle: complement of the unit-root subspace is not autonomous")
+            A22, k2, P2 = U2.T @ T @ U2, U2.T @ K, U2.T @ P
+            if np.abs(np.linalg.eigvals(A22)).max() >= 1 - 1e-9:
+                raise ValueError("BatchOracle: the complementary block is not stable")
+            mua = np.linalg.solve(np.eye(n - unit_roots) - A22, k2)
+            cova = sla.solve_discrete_lyapunov(A22, P2 @ Su @ P2.T)
+            self.mu0 = U2 @ mua
+            self.S0 = U2 @ cova @ U2.T
+            self.E = E
         ne = n + nper * nu + nper * nw
         Var = np.zeros((ne, ne))
         Var[:n, :n] = self.S0
@@ -151,6 +174,11 @@ class BatchOracle:
         A = np.zeros((n, ne)); A[:, :n] = np.eye(n)
         mu = self.mu0.copy()
         self.A, self.mu, self.Y, self.muy, self.U, self.W = [], [], [], [], [], []
+        self.Dx, self.Dy = [], []          # sensitivities of xi_t and y_t to the fixed unknown delta
+        Dcur = self.E
+        for t in range(nper):
+            Dcur = T @ Dcur
+            self.Dx.append(Dcur); self.Dy.append(Z @ Dcur)
         for t in range(nper):
             Sel_u = np.zeros((nu, ne)); Sel_u[:, n + t * nu:n + (t + 1) * nu] = np.eye(nu)
             Sel_w = np.zeros((nw, ne)); Sel_w[:, n + nper * nu + t * nw:n + nper * nu + (t + 1) * nw] = np.eye(nw)
@@ -192,3 +220,46 @@ class BatchOracle:
         sign, logdet = np.linalg.slogdet(Syy)
         d = np.asarray(yvals, dtype=float) - my
         return 0.5 * (k * math.log(2 * math.pi) + logdet + d @ Si @ d), my, Si, logdet
+
+    # ---- fixed unknown initial condition (concentrated likelihood): every quantity is affine in ALL observations
+    def delta_gain(self, obs_all):
+        """delta_hat = Gd (y_all - my_all): the GLS / maximum-likelihood estimate from the whole sample"""
+        Ay, my, Si, _ = self.condition(obs_all)
+        M = np.vstack([self.Dy[t][r:r + 1, :] for r, t in obs_all]) if obs_all else np.zeros((0, self.E.shape[1]))
+        if M.shape[1] == 0:
+            return np.zeros((0, len(obs_all))), M, my, Si
+        W = M.T @ Si @ M
+        if np.linalg.cond(W) > 1e10:
+            raise ValueError("BatchOracle: the fixed unknown initial condition is not identified by these observations")
+        return np.linalg.solve(W, M.T @ Si), M, my, Si
+
+    def ur_mean_affine(self, L, m0, Drow, obs, obs_all):
+        """conditional mean of (L eps + m0 + Drow delta) given y_obs with delta = delta_hat(y_all):  const + coef . y_all"""
+        Gd, M_all, my_all, _ = self.delta_gain(obs_all)
+        pos = {o: i for i, o in enumerate(obs_all)}
+        coef = np.zeros(len(obs_all))
+        const = float(m0)
+        if obs:
+            _, C, my = self.cond_mean_coef(L, m0, obs)
+            C = C[0]
+            M_obs = np.vstack([self.Dy[t][r:r + 1, :] for r, t in obs])
+            for k, o in enumerate(obs):
+                coef[pos[o]] += C[k]
+            const -= float(C @ my)
+            dcoef = np.asarray(Drow).reshape(-1) - C @ M_obs
+        else:
+            dcoef = np.asarray(Drow).reshape(-1)
+        if Gd.shape[0]:
+            g = dcoef @ Gd
+            coef += g
+            const -= float(g @ my_all)
+        return const, coef
+
+    def ur_neg_log_density(self, obs_all):
+        """concentrated -log density: returns (k log 2pi + logdet, R, my_all, Si) with quadratic form (R(y-my))' Si (R(y-my))"""
+        Gd, M_all, my_all, Si = self.delta_gain(obs_all)
+        k = len(obs_all)
+        _, _, _, Syy = self.condition(obs_all)
+        sign, logdet = np.linalg.slogdet(Syy)
+        R = np.eye(k) - (M_all @ Gd if Gd.shape[0] else 0.0)
+        return k * math.log(2 * math.pi) + logdet, R, my_all, Si
